@@ -93,6 +93,9 @@ class FileBasedTapeCassette(TapeCassette):
             recording_id = file_name.split('.')[0]
             recording = self.get_recording(recording_id)
 
+            if self.extract_recording_category(recording.id) != category:
+                continue
+
             if metadata:
                 # Filter based on metadata if provided
                 if not all(metadata[key] == recording.get_metadata()[key] for key in metadata.keys()):
